@@ -157,6 +157,20 @@ Theorem C09_unknown_keyword_rejected : forall strict schema conf vs, schema_ok s
 Proof. exact unknown_keyword_rejected. Qed.
 Print Assumptions C09_unknown_keyword_rejected.
 
+(* NO UNKNOWN TEXT (after the repair of check_keywords): in an accepted configuration every line of what remains after
+   the values are erased is blank, or begins with a keyword AND holds, after it, only braces and further keywords -
+   flat client and every level of the nested client.  The pinned check looked at the first word only:
+   `k { a } junk`, `colvar foo {` and a second `group1 { ... }` block were accepted and silently ignored. *)
+Theorem C09_no_unknown_text :
+  (forall strict schema conf vs, schema_ok schema -> parse_flat strict schema conf = PAccept vs ->
+     forall l, In l (split_lines (strip_values conf (registry_of strict schema conf))) -> line_clean (schema_keywords schema) l) /\
+  (forall strict items conf, nparse strict items conf = true ->
+     forall l, In l (split_lines (strip_values conf (level_registry strict items conf))) ->
+               line_clean (level_keywords strict items conf) l) /\
+  (exists allowed l, line_ok_pinned allowed l = true /\ line_ok allowed l = false).
+Proof. split; [exact no_unknown_text|split; [exact nparse_no_unknown_text|exact line_ok_pinned_refuted]]. Qed.
+Print Assumptions C09_no_unknown_text.
+
 (* "begins with a keyword" in the theorems above and below is equality of the lower-cased WHOLE first word of the line
    with a registered keyword (not a prefix test, not a substring test) *)
 Theorem C09_keyword_is_whole_word : forall allowed l,
